@@ -59,6 +59,10 @@ def run_impl_dedup(rows, chunks):
             start += c
             if len(part):
                 lp.add_path(part[:, 0], part[:, 1], part[:, 2], part[:, 3], part[:, 4])
+                if (start + len(rows)) % 2 == 0:
+                    # the views are read while the path is still being built (every other chunk boundary)
+                    with np.errstate(all='ignore'):
+                        _ = (lp.points, lp.x, lp.lastpt, lp.lastz)
     else:
         # add_path refuses non-finite values and non-positive feeds (C10): arbitrary float32 trajectories are recorded directly
         lp = LaserPath(_x=arr[:, 0].copy(), _y=arr[:, 1].copy(), _z=arr[:, 2].copy(), _f=arr[:, 3].copy(), _s=arr[:, 4].copy())
